@@ -110,6 +110,12 @@ def cases(rng, tier):
 	yield ('el', ('generic', u'v', ((u'a', u'say "hi"'),)))
 	yield ('el', ('generic', u'v', ((u'a', u'x;y,z=w'), (u'b', u'été'), (u'c', u"l'été.txt"))))
 	yield ('list', (('generic', u'v', ((u'a', u'1,2'),)), ('generic', u'w', ((u'b', u'x\\'),))))
+	# white space of every kind INSIDE an all-ASCII value (line feed, carriage return, tab, vertical tab, form feed), alone and next to separators
+	for ws in (u'\n', u'\r', u'\t', u'\x0b', u'\x0c', u'\r\n'):
+		for val in (u'a' + ws + u'b', u'a;' + ws + u'b', u'a' + ws + u'=b,c', u'/a' + ws + u'b'):
+			yield ('el', ('generic', u'v', ((u'x', val),)))
+			yield ('el', ('ctype', u'text/plain', ((u'x', val),)))
+			yield ('list', (('generic', u'v', ((u'x', val),)), ('generic', u'w', ((u'y', u'z'),))))
 	n = 120000 if tier == 'thorough' else 12000
 	for _ in range(n):
 		kind = rng.choice(KINDS)
